@@ -19,13 +19,16 @@ mod verif_replay_fsmio {
   <history id="hist" type="deep"><transition target="s01"/></history>
  </state>
  <parallel id="p">
-  <state id="r1"><initial><transition target="r1a"/></initial><state id="r1a"><transition event="e1" target="r1f"/></state><final id="r1f"><donedata><param name="a" expr="x"/></donedata></final></state>
+  <state id="r1"><initial><transition target="r1a"/></initial><invoke typeexpr="'scxml'" idlocation="x" namelist="x" srcexpr="'child.scxml'"><param name="p" expr="1"/><param name="q" location="x"/></invoke><state id="r1a"><transition event="e1" target="r1f"/></state><final id="r1f"><donedata><param name="a" expr="x"/></donedata></final></state>
   <state id="r2">
    <onentry>
     <if cond="x == 1"><raise event="one"/><elseif cond="x == 2"/><raise event="two"/><else/><raise event="other"/></if>
     <foreach array="l" item="it" index="ix"><log expr="it"/></foreach>
     <send event="tick" delay="10ms" id="sid"><param name="p1" expr="x"/></send>
     <cancel sendid="sid"/>
+    <send idlocation="x" targetexpr="'#_internal'" typeexpr="'scxml'" eventexpr="'ev' + x" delayexpr="'1s'" namelist="x l"/>
+    <send event="withcontent" target="#_internal"><content>hello world</content></send>
+    <script>x = 1</script>
    </onentry>
    <invoke type="scxml" id="inv1" autoforward="true"><content><scxml xmlns="http://www.w3.org/2005/07/scxml" initial="c"><final id="c"/></scxml></content><finalize><log expr="'fin'"/></finalize></invoke>
    <transition event="done.state.p" target="end"/>
@@ -74,9 +77,104 @@ mod verif_replay_fsmio {
             let b = back.executableContent.get(id).expect("content id");
             assert_eq!(a.len(), b.len());
             for (x, y) in a.iter().zip(b.iter()) {
-                assert_eq!(x.get_type(), y.get_type());
+                assert_eq!(dump_ec(x.as_ref()), dump_ec(y.as_ref()), "content region {}", id);
             }
         }
+        // the rest of the states: invoke, data, donedata (canonical dump of every persisted field)
+        for (a, b) in fsm.states.iter().zip(back.states.iter()) {
+            assert_eq!(dump_state_rest(a), dump_state_rest(b), "state {}", a.name);
+        }
+    }
+
+    fn dump_params(p: &Option<Vec<crate::fsm::Parameter>>) -> String {
+        match p {
+            None => "[]".to_string(),
+            Some(v) => format!("{:?}", v.iter().map(|x| (x.name.clone(), x.expr.clone(), x.location.clone())).collect::<Vec<_>>()),
+        }
+    }
+
+    fn dump_cc(c: &Option<crate::fsm::CommonContent>) -> String {
+        match c {
+            None => "-".to_string(),
+            Some(c) => format!("({:?},{:?})", c.content, c.content_expr),
+        }
+    }
+
+    /// every persisted field of an executable-content element
+    fn dump_ec(ec: &dyn ExecutableContent) -> String {
+        use crate::executable_content::*;
+        let any = ec.as_any();
+        if let Some(x) = any.downcast_ref::<If>() {
+            format!("If({},{},{})", x.condition, x.content, x.else_content)
+        } else if let Some(x) = any.downcast_ref::<Expression>() {
+            format!("Expression({})", x.content)
+        } else if let Some(x) = any.downcast_ref::<Script>() {
+            format!("Script({:?})", x.content)
+        } else if let Some(x) = any.downcast_ref::<Log>() {
+            format!("Log({:?},{})", x.label, x.expression)
+        } else if let Some(x) = any.downcast_ref::<ForEach>() {
+            format!("ForEach({},{:?},{:?},{})", x.array, x.item, x.index, x.content)
+        } else if let Some(x) = any.downcast_ref::<SendParameters>() {
+            format!(
+                "Send({:?},{:?},{:?},{},{},{},{},{},{},{},{},{:?},{},{})",
+                x.name_location,
+                x.name,
+                if x.name_location.is_empty() { String::new() } else { x.parent_state_name.clone() },
+                x.event,
+                x.event_expr,
+                x.target,
+                x.target_expr,
+                x.type_value,
+                x.type_expr,
+                x.delay_ms,
+                x.delay_expr,
+                x.name_list,
+                dump_params(&x.params),
+                dump_cc(&x.content)
+            )
+        } else if let Some(x) = any.downcast_ref::<Raise>() {
+            format!("Raise({:?})", x.event)
+        } else if let Some(x) = any.downcast_ref::<Cancel>() {
+            format!("Cancel({:?},{})", x.send_id, x.send_id_expr)
+        } else if let Some(x) = any.downcast_ref::<Assign>() {
+            format!("Assign({},{})", x.location, x.expr)
+        } else {
+            panic!("unknown executable content type {}", ec.get_type())
+        }
+    }
+
+    fn dump_state_rest(s: &crate::fsm::State) -> String {
+        let mut out = String::new();
+        for inv in s.invoke.iterator() {
+            out.push_str(&format!(
+                "Invoke({:?},{:?},{},{},{},{},{},{:?},{},{},{},{},{:?});",
+                inv.invoke_id,
+                if inv.invoke_id.is_empty() { inv.parent_state_name.clone() } else { String::new() },
+                inv.doc_id,
+                inv.src_expr,
+                inv.src,
+                inv.type_expr,
+                inv.type_name,
+                inv.external_id_location,
+                inv.autoforward,
+                inv.finalize,
+                dump_cc(&inv.content),
+                dump_params(&inv.params),
+                inv.name_list
+            ));
+        }
+        let mut keys: Vec<&String> = s.data.keys().collect();
+        keys.sort();
+        for k in keys {
+            out.push_str(&format!("Data({:?}={});", k, s.data.get(k).unwrap()));
+        }
+        if let Some(dd) = &s.donedata {
+            out.push_str(&format!("DoneData({},{});", dump_cc(&dd.content), dump_params(&dd.params)));
+        }
+        let h: Vec<&u32> = s.history.iterator().collect();
+        let t: Vec<&u32> = s.transitions.iterator().collect();
+        out.push_str(&format!("history={:?} transitions={:?}", h, t));
+        out
     }
 
     /// C18: an image cut off at any byte boundary is reported as an error, never accepted, never a panic
